@@ -32,6 +32,8 @@ def gen(rng, tier, open_keys):
 
 def corpus():
     return [
+        # a LIFO broker whose deque holds one message: every further publish evicts (force-push at capacity 1)
+        "(broker (backend lifo 1) (opts (parallel 0) (workers 1) (buffer 0)) (script (sub 0 gated) (pub 0 6) (quiesce) (open 0) (quiesce) (pub 1 1) (quiesce) (pub 2 1) (quiesce)))",
         "(broker (backend deque unl) (opts (parallel 0) (workers 1) (buffer 0)) (script (sub 0 gated) (pub 0 5) (quiesce) (open 0) (quiesce)))",
         "(broker (backend chan 0) (opts (parallel 0) (workers 1) (buffer 0)) (script (sub 0 open) (statsrace) (pub 0 1) (stats) (quiesce)))",
         "(broker (backend chan 0) (opts (parallel 0) (workers 1) (buffer 0)) (script (waitasync) (quiesce) (stop) (joinwait)))",
